@@ -421,9 +421,9 @@ pub fn run(args: &[String]) -> i32 {
         .map(|s| s.parse::<u64>().unwrap_or_else(|_| die("seed must be an unsigned integer")))
         .unwrap_or(DEFAULT_SEED);
     let jobs = arg_u64(args, "--jobs", std::thread::available_parallelism().map(|n| n.get() as u64).unwrap_or(4)).max(1);
-    let total_random = arg_u64(args, "--runs", if tier == 0 { 6_000 } else { 120_000 });
+    let total_random = arg_u64(args, "--runs", if tier == 0 { 6_000 } else { 250_000 });
     // sweeps: quick = a sample of base 0 (every 16th position), thorough = 6 complete bases
-    let sweep_bases = arg_u64(args, "--sweep-bases", if tier == 0 { 1 } else { 6 });
+    let sweep_bases = arg_u64(args, "--sweep-bases", if tier == 0 { 1 } else { 10 });
     let sweep_stride = arg_u64(args, "--sweep-stride", if tier == 0 { 19 } else { 1 }).max(1);
     let total = total_random + (sweep_bases * sweep::PER_BASE).div_ceil(sweep_stride);
     let evidence = arg_val(args, "--evidence").unwrap_or_else(|| die("--evidence FILE"));
